@@ -91,7 +91,8 @@ def params_of(cls_name):
 
 
 KINDS = {"quantity": ["wrong_dimension", "negative", "raw_number", "string", "bare_quantity", "hourly_series"],
-         "list": ["wrong_class_element", "string_element"], "choice": ["outside_allowed_values"],
+         "list": ["wrong_class_element", "wrong_class_element_2", "string_element"],
+         "choice": ["outside_allowed_values"],
          "hourly": ["scalar_instead", "raw_number", "other_length"], "link": ["wrong_class_link"],
          "tz": ["raw_string"]}
 SITES = ["construction", "assignment", "group", "list_mutator"]
@@ -108,7 +109,8 @@ def grid(spec):
         for p, pk in params_of(e["cls"]):
             for kind in KINDS[pk]:
                 for site in SITES:
-                    if site == "construction" and (not first_of_class or kind == "other_length"):
+                    if site == "construction" and (not first_of_class or kind in ("other_length",
+                                                                                    "wrong_class_element_2")):
                         continue
                     if site == "list_mutator" and pk != "list":
                         continue
@@ -154,6 +156,16 @@ def invalid_value(cell, objs, spec):
             wrong = objs["st_a"] if "st_a" in objs else next(o for n, o in objs.items() if n.startswith("st"))
             cur = list(getattr(obj, p))
             return cur + [wrong]
+        if kind == "wrong_class_element_2":
+            # an object of another class that quacks enough like the expected one for computations to go through
+            # (a server among devices has power, lifespan...): only the class check can refuse it
+            want = {"devices": ("Server", "BoaviztaCloudServer"), "jobs": ("Network", "Device"),
+                    "uj_steps": ("Job",), "usage_patterns": ("UsageJourney",)}[p]
+            wrong = next((o for n, o in sorted(objs.items()) if type(o).__name__ in want), None)
+            if wrong is None:
+                return None
+            cur = list(getattr(obj, p))
+            return cur + [wrong] if cur else None
         return list(getattr(obj, p)) + ["job"]
     if cell["pkind"] == "choice":
         return SourceObject("bogus value")
